@@ -1,6 +1,7 @@
 CONSTANTS
   CwdVariant = "code"
   StatGuard = FALSE
+  CcStopsAtExisting = FALSE
 INIT Init
 NEXT Next
 INVARIANT Inv
